@@ -616,9 +616,10 @@ def generate_circ():
     expect_text(b[0], "fields = circ.fields()", "run fields")
     expect_text(b[1], "psi = np.zeros(math.prod([f.dof() for f in fields]))", "run psi")
     expect_text(b[2], "psi[0] = 1", "run psi[0]")
-    expect_text(b[3], "for g in circ.gates:\n    psi = g.as_circuit_matrix(fields) @ psi", "run loop")
+    expect_text(b[3], "for g in circ.gates:\n    if isinstance(g, ControlInstruction):\n        continue\n"
+                      "    psi = g.as_circuit_matrix(fields) @ psi", "run loop")
     expect_text(b[4], "return psi", "run return")
-    out.append("(* StatevectorSimulator.run: psi = e_0; for g in gates: psi = E(g) @ psi  (CircModel.run_statevector) *)")
+    out.append("(* StatevectorSimulator.run: psi = e_0; for g in gates (control instructions skipped, as in as_matrix): psi = E(g) @ psi  (CircModel.run_statevector) *)")
     out.append("Definition gen_statevector_loop : bool := true.\n")
     return "\n".join(out) + "\n"
 
